@@ -30,10 +30,12 @@ def _decode_escape_sequence(  # noqa: PLR0911
         raise PestGrammarSyntaxError("incomplete escape sequence", token=token) from err
 
     # TODO: match these to Rust?
-    if ch == quote:
-        return quote, index
+    if ch in ('"', "'"):
+        return ch, index
     if ch == "\\":
         return "\\", index
+    if ch == "0":
+        return "\0", index
     if ch == "/":
         return "/", index
     if ch == "b":
@@ -47,8 +49,10 @@ def _decode_escape_sequence(  # noqa: PLR0911
     if ch == "t":
         return "\t", index
     if ch == "x":
-        # TODO: handle incomplete \x escape sequence
-        return chr(int(value[index + 1 : index + 3], 16)), index + 3
+        digits = value[index + 1 : index + 3]
+        if len(digits) != 2:  # noqa: PLR2004
+            raise PestGrammarSyntaxError("incomplete \\xXX escape sequence", token=token)
+        return chr(_parse_hex_digits(digits, token)), index + 2
     if ch == "u":
         codepoint, index = _decode_hex_char(value, index, token)
         return chr(codepoint), index
@@ -63,9 +67,9 @@ def _decode_hex_char(value: str, index: int, token: Token) -> tuple[int, int]:
     # TODO: use a regular expression?
     index += 1  # move past 'u'
 
-    if value[index] != "{":
+    if value[index : index + 1] != "{":
         raise PestGrammarSyntaxError(
-            f"expected an opening brace, found {value[index]}",
+            f"expected an opening brace, found {value[index : index + 1]!r}",
             token=token,
         )
 
@@ -76,15 +80,19 @@ def _decode_hex_char(value: str, index: int, token: Token) -> tuple[int, int]:
         raise PestGrammarSyntaxError("unclosed Unicode escape sequence", token=token)
 
     hex_digit_length = closing_brace_index - index
-    if hex_digit_length not in (2, 4, 6):
+    if not 2 <= hex_digit_length <= 6:  # noqa: PLR2004
         raise PestGrammarSyntaxError(
-            "expected \\u{00}, \\u{0000} or \\u{000000}", token=token
+            "expected two to six hexadecimal digits in \\u{XXXX}", token=token
         )
 
     codepoint = _parse_hex_digits(value[index : index + hex_digit_length], token)
-    index += hex_digit_length
-    index += 1  # move past '}'
-    return codepoint, index
+    if codepoint > 0x10FFFF:  # noqa: PLR2004
+        raise PestGrammarSyntaxError(
+            "\\u{XXXX} escape sequence is not a Unicode code point", token=token
+        )
+
+    # Leave `index` at the closing brace, `unescape_string` moves past it.
+    return codepoint, closing_brace_index
 
 
 def _parse_hex_digits(digits: str, token: Token) -> int:
